@@ -103,11 +103,36 @@ def check_path(d, ft, R1, Rg):
     return close(two, direct, scale_of(a, m) + a1[0] + abs(m1[0])), two, direct
 
 
+def iface_disagree(d, ft, Rg, all_diagrams=None):
+    """one cycle through the plain function, the DataFrame accessor (both column conventions, optionally one diagram per
+    element) and the histogram accessor (one-class matrices of both kinds); True if the amplitudes differ"""
+    a, m = ms.am_of(ft)
+    fa, fm, sc = float(a), float(m), scale_of(a, m)
+    vals = {'plain': ms.impl_plain(d, [fa], [fm], Rg)[0],
+            'collective/from_to': ms.impl_collective(d, ('from_to', [ft[0]], [ft[1]]), Rg)[0][0],
+            'collective/range_mean': ms.impl_collective(d, ('range_mean', [2 * fa], [fm]), Rg, 'named')[0][0]}
+    w = fa / 2.
+    if fa > 0:
+        h1 = ms.hist_series('range_mean', [2 * fa - w, 2 * fa + w], [fm - w, fm + w], [[1]])
+        vals['histogram/range_mean'] = float(ms.impl_hist_transform(d, h1, Rg)[0].iloc[0]) / 2.
+        h2 = ms.hist_series('from_to', [fm - fa - w, fm - fa + w], [fm + fa - w, fm + fa + w], [[1]])
+        vals['histogram/from_to'] = float(ms.impl_hist_transform(d, h2, Rg)[0].iloc[0]) / 2.
+    if all_diagrams:
+        out = ms.impl_collective_multi(all_diagrams, ('from_to', [ft[0]], [ft[1]]), Rg)
+        k = [i for i, dd in enumerate(all_diagrams) if dd == d]
+        if k:
+            vals['collective/one diagram per element'] = out[k[0]][0][0]
+    ref = vals['plain']
+    return any(not close(x, ref, sc, 1e-12) for x in vals.values())
+
+
 def replay_violation(v):
     """re-evaluates a recorded violation on the implementation; returns True if it still fails"""
     d, Rg = v['diagram'], v['R_goal']
     what = v['what']
-    if what in (W_CLOSED, W_FIX, W_IFACE) and 'cycle' in v:
+    if what == W_IFACE:
+        return iface_disagree(d, tuple(v['cycle']), Rg, v.get('all_diagrams'))
+    if what in (W_CLOSED, W_FIX) and 'cycle' in v:
         ft = tuple(v['cycle'])
         if what == W_FIX:
             got = ms.impl_plain(d, [float(ms.am_of(ft)[0])], [float(ms.am_of(ft)[1])], Rg)[0]
@@ -125,9 +150,13 @@ def replay_violation(v):
         return abs(out[1] - out[0]) > v['bound']
     if what in (W_CONS, W_RGOAL):
         s = ms.hist_series(v['hist_kind'], v['x_breaks'], v['y_breaks'], v['counts'], v.get('extra'))
-        r = ms.impl_hist_fkm(d, s, Rg)
+        try:
+            r = ms.impl_hist_fkm(d, s, Rg)
+            tot = float(r.sum())
+        except Exception:
+            return True
         if what == W_CONS:
-            return abs(float(r.sum()) - float(s.sum())) > 1e-9
+            return abs(tot - float(s.sum())) > 1e-9
         return hist_goal_defect(r, Rg) is not None
     return True
 
@@ -314,7 +343,12 @@ def hist_batch(res, rng, stats, terms, info, rterms, rinfo):
     ranges, _ = ms.impl_hist_transform(d, s, Rg)
     rv = [float(v) for v in ranges.to_numpy()]
     plain = ms.impl_plain(d, [float(v) for v in amp], [float(v) for v in mean], Rg)
-    r = ms.impl_hist_fkm(d, s, Rg)
+    try:
+        r = ms.impl_hist_fkm(d, s, Rg)
+        tot_out = float(r.sum())
+    except Exception as e:      # a valid histogram must be transformable: no result = cycles lost
+        res.violation(W_CONS, observed='exception %r' % e, expected=float(s.sum()), **base)
+        return
     stats['calls'] += 3
     stats['hist'] += 1
     ctor = 'cyc_of_hist_range_mean' if kind == 'range_mean' else 'cyc_of_hist_from_to'
@@ -329,9 +363,12 @@ def hist_batch(res, rng, stats, terms, info, rterms, rinfo):
             info.append({'diagram': d, 'R_goal': Rg, 'interface': 'histogram/' + kind, 'class_mids': [float(x[k]), float(y[k])],
                          'impl_amplitude': rv[k] / 2.})
     # conservation of the number of cycles (the property itself, on the implementation)
-    tot_in, tot_out = float(s.sum()), float(r.sum())
+    tot_in = float(s.sum())
     if abs(tot_in - tot_out) > 1e-9:
         res.violation(W_CONS, observed=tot_out, expected=tot_in, **base)
+    if len(r) == 0:                # nothing left to compare (only possible together with the violation above)
+        stats['hist_empty_result'] = stats.get('hist_empty_result', 0) + 1
+        return
     if extra is not None:
         for nid in extra:
             ti, to_ = float(s.xs(nid, level='node_id').sum()), float(r.xs(nid, level='node_id').sum())
@@ -426,7 +463,7 @@ def run(res):
     for c in load_corpus():          # hand-picked edge cases and minimised earlier failures run first
         batch(res, rng, c['diagram'], c['R_goal'], stats, terms, info, cyc=[tuple(x) for x in c['cycles']])
     stats['corpus_batches'] = len(load_corpus())
-    n_batch = 160 if quick else 2000
+    n_batch = 160 if quick else 1500
     for it in range(n_batch):
         wild = it % 10 == 7
         d = ms.gen_fkm(rng) if it % 2 == 0 else ms.gen_five(rng, wild)
@@ -439,7 +476,7 @@ def run(res):
             mono_batch(res, rng, d, Rg, stats)
     for it in range(12 if quick else 120):
         multi_batch(res, rng, 'fkm' if it % 2 == 0 else 'five', stats, terms, info)
-    for it in range(40 if quick else 500):
+    for it in range(40 if quick else 400):
         hist_batch(res, rng, stats, terms, info, rterms, rinfo)
 
     res.cov['wall_impl_s'] = round(time.time() - t0, 1)
